@@ -33,7 +33,7 @@ let parse_op s =
   match t.(0) with
   | "B" -> [C03Begin]
   | "A" -> [C03Add (z_of_int (i 1), n_of_int (i 2), n_of_int (i 3), i 4 <> 0)]
-  | "a" -> [C03Add (z_of_int (i 1), N0, N0, false)]           (* add(global): default-constructed local index *)
+  | "a" -> [c03_add_default (z_of_int (i 1))]                 (* add(global): default-constructed local index (model) *)
   | "D" -> [C03MarkDeleted (nat_of_int (i 1))]
   | "E" -> [C03End] | "R" -> [C03Renumber]
   | "X" -> [C03Exists (z_of_int (i 1))] | "T" -> [C03At (z_of_int (i 1))] | "G" -> [C03Get (z_of_int (i 1))]
@@ -60,6 +60,7 @@ let () =
       match t with
       | _ :: chk :: ops ->
           let chk = chk <> "0" in
+          let toks = List.map (fun s -> String.sub s 0 1) ops in
           let groups = List.map parse_op ops in
           let ops = List.concat groups in
           let show os =
@@ -67,10 +68,39 @@ let () =
               | [] -> []
               | g :: r -> let k = List.length g in String.concat "/" (List.map out_str (take k os)) :: go r (drop k os) in
             String.concat ";" (go groups os) in
-          let (_, m) = c03_run chk false c03_init ops in
-          let (_, ml) = c03_run chk true c03_init ops in
-          let (_, sp) = c03_spec_run c03s_init ops in
-          print_endline (show m ^ " | " ^ show ml ^ " | " ^ show sp)
+          (* the model is stepped here so that the state is at hand: at()/operator[] are evaluated through BOTH the
+             non-const and the const spelling of the search (as the harness calls both overloads), the lookup set's size() too *)
+          let run_model legacy =
+            let st = ref c03_init in
+            List.concat (List.map2 (fun tok g ->
+              List.map (fun op ->
+                let before = !st in
+                let (st', o) = c03_step chk legacy before op in
+                st := st';
+                let both a b = let sa = out_str a and sb = out_str b in if sa = sb then sa else "nonconst=" ^ sa ^ ",const=" ^ sb in
+                match op with
+                | C03At g -> both o (c03_at_c legacy before.c03_local g)
+                | C03Get g -> both o (c03_get_c before.c03_local g)
+                | C03Iterate when tok = "J" -> out_str o ^ "/" ^ out_str (c03_lookup_size before.c03_local)
+                | _ -> out_str o) g) toks groups) in
+          let showm strs =
+            let rec go gs os = match gs with
+              | [] -> []
+              | g :: r -> let k = List.length g in String.concat "/" (take k os) :: go r (drop k os) in
+            String.concat ";" (go groups strs) in
+          let m = run_model c03_param_legacy_probe_test in
+          let ml = run_model true in
+          let sp =
+            let st = ref c03s_init in
+            List.concat (List.map2 (fun tok g ->
+              List.map (fun op ->
+                let before = !st in
+                let (st', o) = c03_spec_step before op in
+                st := st';
+                match op with
+                | C03Iterate when tok = "J" -> out_str o ^ "/" ^ out_str (c03_lookup_size before.c03s_set)
+                | _ -> out_str o) g) toks groups) in
+          print_endline (showm m ^ " | " ^ showm ml ^ " | " ^ showm sp)
       | _ -> print_endline "BAD-CASE"
     with Failure e -> print_endline ("BAD-CASE " ^ e))
   done with End_of_file -> ())
